@@ -400,6 +400,24 @@ def cliUnitResults (b : Bool) (units : PyVal → List PyVal) (results : List PyV
   | [r] => .list ((units r).map (serializeExtraction b))
   | rs => .list (rs.map (fun r => .list ((units r).map (serializeExtraction b))))
 
+/-- `cli.main` with `--json` / `--json-unit` [`--binary`]: the payload written to stdout -/
+def cliPayload (jsonUnit binary : Bool) (units : PyVal → List PyVal) (results : List PyVal) : PyVal :=
+  if jsonUnit then cliUnitResults binary units results else cliResults binary results
+
+/-- how `cli.py` hands `--binary` on to the serialiser (current source: `passed` everywhere — tie:
+`S2T.Gen.SerialSites.flagSites`); `droppedForSeveral` = the several-results branch mentions the serialiser without
+the keyword (`map(serialize_extraction, results)`), which falls back to its default `include_binary=True` -/
+inductive FlagPlumbing
+  | passed
+  | droppedForSeveral
+  deriving DecidableEq, Repr, Inhabited
+
+def cliResultsWith (pl : FlagPlumbing) (b : Bool) (results : List PyVal) : PyVal :=
+  match pl, results with
+  | _, [r] => serializeExtraction b r
+  | .passed, rs => .list (rs.map (serializeExtraction b))
+  | .droppedForSeveral, rs => .list (rs.map (serializeExtraction true))
+
 /-! ## spreadsheet cell normalisation (`xlsx_extractor._get_cell_value`) -/
 
 /-- what openpyxl (`read_only=True, data_only=True`) hands over for a cell: `None`, `bool`, `int`, `float`, `str`,
